@@ -3,6 +3,7 @@ Props/C08.lean — C08 "delete() removes the tags and nothing else".
 Formats with a Lean container model: FLAC.
 -/
 import MutagenModel.Proofs.Container.Flac
+import MutagenModel.Proofs.Container.Id3File
 set_option linter.unusedVariables false
 namespace Mutagen.C08
 open Mutagen Mutagen.FlacC
@@ -20,5 +21,32 @@ theorem flac_retag_after_delete (L : Layout) (hL : Good L) (v : Bytes) (hv : v.l
     Good (step (step L .delete) (.save v pad)) := by
   have h1 := step_good L hL .delete trivial
   exact (step_good _ h1.1 (.save v pad) hv).1
+
+/-! ## free-standing ID3 files -/
+
+/-- deleting both tags of `[ID3v2 tag][audio][ID3v1 block]` leaves exactly the audio: no header, no
+padding, no ID3v1 block — and the result has no tag (`ID3Header` finds none, `find_id3v1` finds
+none when the audio itself does not look like one) -/
+theorem id3_delete_leaves_audio (L : Id3F.Layout) (h : L.OK) :
+    Id3F.delete L.render true true = .ok L.audio := by
+  have := Id3F.delete_layout L h true true
+  simpa using this
+
+/-- deleting again changes nothing (the audio alone is a layout without tags) -/
+theorem id3_delete_idempotent (L : Id3F.Layout) (h : L.OK)
+    (ha : (Id3F.Layout.mk [] L.audio []).OK) :
+    Id3F.delete L.audio true true = .ok L.audio := by
+  have := Id3F.delete_layout ⟨[], L.audio, []⟩ ha true true
+  simpa [Id3F.Layout.render] using this
+
+/-- new tags can be saved after a delete: the result is the new tag followed by the same audio -/
+theorem id3_retag_after_delete (L : Id3F.Layout) (ha : (Id3F.Layout.mk [] L.audio []).OK) (vmaj : Nat)
+    (hvm : vmaj = 3 ∨ vmaj = 4) (frames : Bytes) (pad : PadChoice) (p : Nat)
+    (hp : getPadding pad ((0 : Int) - (frames.length + 10 : Nat)) L.audio.length = p) (hfit : frames.length + p < 2 ^ 28) :
+    ∃ hd, Id3F.header vmaj (frames.length + p) = .ok hd ∧
+      Id3F.save L.audio vmaj frames pad 0 [] = .ok (hd ++ frames ++ zeros p ++ L.audio) := by
+  obtain ⟨hd, hh, hs⟩ := Id3F.save_layout ⟨[], L.audio, []⟩ ha vmaj hvm frames pad 0 [] p (by simpa using hp) hfit
+  refine ⟨hd, hh, ?_⟩
+  simpa [Id3F.Layout.render, Id3F.newV1] using hs
 
 end Mutagen.C08
